@@ -133,6 +133,160 @@ theorem replaceSection_OL (n : Nat) (opText : List (Str × Str)) (opDefault : Op
   unfold replaceSection at hr
   exact foldlM_replaceStep_OL T n _ _ _ _ _ rs (OL_nil T n) (detect_ok T n sec [] h (by simp)) hr
 
+/-! ### no-crash facts: `special_tokens[t.txt]`, `lang_context`, `replace_section`, `setRot` -/
+
+theorem ncMath_rotL (l : List Str) (h : l ≠ []) : rotL l ≠ [] := by
+  cases l with
+  | nil => exact absurd rfl h
+  | cons a t => simp [rotL]
+
+def ncMath_ItemNE : SecItem → Prop
+  | .tok _ => True
+  | .part ts => ts ≠ []
+
+theorem ncMath_detect_NE : ∀ (ts cur : List Tok), ∀ it ∈ detectMathParts ts cur, ncMath_ItemNE it := by
+  intro ts
+  induction ts with
+  | nil =>
+    intro cur it hit
+    simp only [detectMathParts] at hit
+    split at hit
+    · simp at hit
+    · rename_i hc
+      simp only [List.mem_singleton] at hit; subst hit
+      simp only [ncMath_ItemNE, ne_eq, List.reverse_eq_nil_iff]
+      simpa using hc
+  | cons t ts ih =>
+    intro cur it hit
+    simp only [detectMathParts] at hit
+    split at hit
+    · exact ih _ it hit
+    · simp only [List.mem_append, List.mem_cons] at hit
+      rcases hit with hit | rfl | hit
+      · split at hit
+        · simp at hit
+        · rename_i hc
+          simp only [List.mem_singleton] at hit; subst hit
+          simp only [ncMath_ItemNE, ne_eq, List.reverse_eq_nil_iff]
+          simpa using hc
+      · trivial
+      · exact ih _ it hit
+
+theorem ncMath_replaceStep (opText : List (Str × Str)) (d : Str) (inline : Bool)
+    (s : RsState) (it : SecItem) (hs : s.repls ≠ []) (hi : ncMath_ItemNE it) :
+    ∃ s', replaceStep T opText (some d) inline s it = some s' ∧ s'.repls ≠ [] := by
+  cases it with
+  | tok t =>
+    simp only [replaceStep]
+    split <;> exact ⟨_, rfl, hs⟩
+  | part ts =>
+    cases ts with
+    | nil => exact absurd rfl hi
+    | cons t0 r =>
+      obtain ⟨tl, htl⟩ : ∃ tl, (t0 :: r).getLast? = some tl := ⟨_, List.getLast?_eq_some_getLast (by simp)⟩
+      simp only [replaceStep, List.head?_cons, htl]
+      have key : ∀ c : Bool, (if c = true then rotL s.repls else s.repls) ≠ [] := by
+        intro c; split
+        · exact ncMath_rotL _ hs
+        · exact hs
+      split
+      · exact ⟨_, rfl, hs⟩
+      · split
+        · rename_i heq
+          exfalso
+          split at heq
+          · split at heq <;> simp at heq
+          · simp at heq
+        · rename_i out2 _
+          split
+          · rename_i heq
+            exfalso
+            split at heq
+            · exact key _ (List.head?_eq_none_iff.mp heq)
+            · simp at heq
+          · exact ⟨_, rfl, key _⟩
+
+theorem ncMath_foldlM_replaceStep (opText : List (Str × Str)) (d : Str) (inline : Bool) :
+    ∀ (items : List SecItem) (s : RsState), s.repls ≠ [] → (∀ it ∈ items, ncMath_ItemNE it) →
+    ∃ s', items.foldlM (replaceStep T opText (some d) inline) s = some s' ∧ s'.repls ≠ [] := by
+  intro items
+  induction items with
+  | nil => intro s hs _; exact ⟨s, rfl, hs⟩
+  | cons it items ih =>
+    intro s hs hi
+    obtain ⟨s1, h1, h2⟩ := ncMath_replaceStep T opText d inline s it hs (hi it (by simp))
+    obtain ⟨s2, h3, h4⟩ := ih s1 h2 (fun j hj => hi j (by simp [hj]))
+    refine ⟨s2, ?_, h4⟩
+    simp only [List.foldlM_cons, Option.bind_eq_bind, h1, Option.bind_some, h3]
+
+/-- `replace_section` cannot raise: every part is non-empty, the default operator text exists,
+    and the placeholder list is (and stays) non-empty -/
+theorem replaceSection_total (opText : List (Str × Str)) (opDefault : Option Str) (inline : Bool)
+    (toks : List Tok) (first next : Bool) (repls : List Str)
+    (hd : opDefault.isSome = true) (hr : repls ≠ []) :
+    ∃ rs, replaceSection T opText opDefault inline (detectMathParts toks []) first next repls = some rs ∧
+      rs.repls ≠ [] := by
+  obtain ⟨d, rfl⟩ := Option.isSome_iff_exists.mp hd
+  unfold replaceSection
+  exact ncMath_foldlM_replaceStep T opText d inline _ _ hr (ncMath_detect_NE toks [])
+
+theorem ncMath_special (n : Nat) (tok : Tok) (h : TokOk T n tok) : ∃ txt, mathSpecialTxt T tok = some txt := by
+  unfold mathSpecialTxt
+  split
+  · rename_i hk
+    have hm := h.2.2.2
+    simp only [beq_iff_eq] at hk
+    simp only [mbOk, hk] at hm
+    exact Option.isSome_iff_exists.mp hm
+  · exact ⟨_, rfl⟩
+
+theorem ncMath_settings (hw : T.WFInv) (nroot : Nat) (st : PState) (h : G0 T nroot st) :
+    ∃ ls, settingsOf T (curSettings st) = some ls := by
+  apply Option.isSome_iff_exists.mp
+  unfold curSettings
+  cases hs : st.langStack with
+  | nil => simpa using hw.lang_en
+  | cons e r => simpa using h.langs e (by simp [hs])
+
+theorem ncMath_rot (nroot : Nat) (st : PState) (h : G0 T nroot st) (code : Str) (ls : LangSettings)
+    (hs : settingsOf T code = some ls) :
+    ∃ rot, rotOf st code = some rot ∧ rot ∈ st.rots ∧ rot.inl ≠ [] ∧ rot.disp ≠ [] ∧ rot.chg ≠ [] := by
+  unfold settingsOf at hs
+  have hc := List.find?_some hs
+  have hm := List.mem_of_find?_eq_some hs
+  simp only [beq_iff_eq] at hc
+  subst hc
+  obtain ⟨rot, hr⟩ := Option.isSome_iff_exists.mp (h.rots.1 ls hm)
+  have hmem : rot ∈ st.rots := List.mem_of_find?_eq_some hr
+  exact ⟨rot, hr, hmem, h.rots.2 rot hmem⟩
+
+
+theorem ncMath_rotOf_setRot (st : PState) (r : Rot) (code : Str) :
+    (rotOf (setRot st r) code).isSome = (rotOf st code).isSome := by
+  unfold rotOf setRot
+  simp only [List.find?_map, Option.isSome_map]
+  congr 2
+  funext x
+  simp only [Function.comp]
+  split
+  · rename_i hx
+    simp only [beq_iff_eq] at hx
+    rw [hx]
+  · rfl
+
+theorem ncMath_G_setRot (nroot : Nat) (st : PState) (r : Rot) (h : G T nroot st)
+    (hr : r.inl ≠ [] ∧ r.disp ≠ [] ∧ r.chg ≠ []) : G T nroot (setRot st r) := by
+  refine ⟨⟨h.flows, h.macros, h.envs, h.gloss, h.items, h.langs, ?_, ?_⟩, h.root, h.inFrame⟩
+  · intro l hl
+    rw [ncMath_rotOf_setRot]
+    exact h.rots.1 l hl
+  · intro x hx
+    simp only [setRot, List.mem_map] at hx
+    obtain ⟨y, hy, rfl⟩ := hx
+    split
+    · exact hr
+    · exact h.rots.2 y hy
+
 /-! ### frame lemmas -/
 
 theorem Good_refl (nroot : Nat) (st : PState) (h : G T nroot st) : Good T nroot st st := ⟨h, rfl, rfl⟩
@@ -145,8 +299,9 @@ theorem Good_diags (nroot : Nat) (st st' : PState) (h : G T nroot st)
     (hd : st' = { st with diags := st'.diags }) : Good T nroot st st' := by
   rw [hd]; exact ⟨G_diags T nroot st _ h, rfl, rfl⟩
 
-theorem Good_setRot (nroot : Nat) (st : PState) (r : Rot) (h : G T nroot st) : Good T nroot st (setRot st r) :=
-  ⟨⟨⟨h.flows, h.macros, h.envs, h.gloss⟩, h.root, h.inFrame⟩, rfl, rfl⟩
+theorem Good_setRot (nroot : Nat) (st : PState) (r : Rot) (h : G T nroot st)
+    (hr : r.inl ≠ [] ∧ r.disp ≠ [] ∧ r.chg ≠ []) : Good T nroot st (setRot st r) :=
+  ⟨ncMath_G_setRot T nroot st r h hr, rfl, rfl⟩
 
 theorem MTok_of_OTok (n : Nat) (t : Tok) (h : OTok T n t) : MTok T n t := ⟨h.1, Or.inr h.2⟩
 
@@ -319,15 +474,14 @@ theorem mathSec_step (hw : T.WFInv) (nroot fuel : Nat) (IH : AllSpecs T nroot fu
       refine Post_ite _ _ _ _ _ (fun hk => ?_) (fun _ => ?_)
       · exact mathSec_rec T nroot fuel IH st st hgr _ start toksStop envStop _ hmr hstart henv
           (snoc _ (MTok_mkMath T _ _ _ _ htok.1 (by simp)))
-      cases mathSpecialTxt T tok with
-      | none => exact Post_crash _ _ _
-      | some txt =>
-        dsimp only
-        refine Post_ite _ _ _ _ _ (fun hk => ?_) (fun _ => ?_)
-        · exact mathSec_rec T nroot fuel IH st st hgr _ start toksStop envStop _ hmr hstart henv
-            (snoc _ (MTok_mkMath T _ _ _ _ htok.1 (by simp)))
-        · exact mathSec_rec T nroot fuel IH st st hgr _ start toksStop envStop _ hmr hstart henv
-            (snoc _ (MTok_mkMath T _ _ _ _ htok.1 (by simp)))
+      obtain ⟨txt, htxt⟩ := ncMath_special T _ tok htok
+      rw [htxt]
+      dsimp only
+      refine Post_ite _ _ _ _ _ (fun hk => ?_) (fun _ => ?_)
+      · exact mathSec_rec T nroot fuel IH st st hgr _ start toksStop envStop _ hmr hstart henv
+          (snoc _ (MTok_mkMath T _ _ _ _ htok.1 (by simp)))
+      · exact mathSec_rec T nroot fuel IH st st hgr _ start toksStop envStop _ hmr hstart henv
+          (snoc _ (MTok_mkMath T _ _ _ _ htok.1 (by simp)))
 
 /-! ### `expandInlineMath` -/
 
@@ -354,24 +508,21 @@ theorem inline_step (hw : T.WFInv) (nroot fuel : Nat) (IH : AllSpecs T nroot fue
   refine Post_bind _ _ _ _ _ (Post_get st1 (fun a s => st1 = a ∧ st1 = s) ⟨rfl, rfl⟩) ?_
   rintro _ _ ⟨rfl, rfl⟩
   dsimp only
-  cases hr : rotOf st1 (curSettings st1) with
-  | none => exact Post_crash _ _ _
-  | some rot =>
-    cases hs : settingsOf T (curSettings st1) with
-    | none => exact Post_crash _ _ _
-    | some ls =>
-      dsimp only
-      cases hrs : replaceSection T ls.opText ls.opDefault true (detectMathParts sec.out []) true true rot.inl with
-      | none => exact Post_crash _ _ _
-      | some rs =>
-        dsimp only
-        have hro := replaceSection_OL T _ _ _ _ _ _ _ _ rs hout hrs
-        refine Post_bind _ _ _ _ _ (Post_modify _ st1 (fun _ s => Good T nroot st s)
-          (Good_trans T nroot _ _ _ hgood (Good_setRot T nroot st1 _ hgood.1))) ?_
-        intro _ st2 hgood2
-        apply Post_pure
-        have ho1 : OL T st.latex.length (mkAction tok.pos :: rs.out) := OL_cons T _ _ _ (OTok_mkAction T _ _ hp) hro
-        exact ⟨hgood2, OL_snoc T _ _ _ ho1 (OTok_mkAction T _ _ (lastPos_lt _ _ _ (OL_pos T _ _ ho1) hp)), hbuf⟩
+  obtain ⟨ls, hs⟩ := ncMath_settings T hw nroot st1 hgood.1.toG0
+  obtain ⟨rot, hr, _, hri, hrd, hrc⟩ := ncMath_rot T nroot st1 hgood.1.toG0 _ ls hs
+  rw [hr, hs]
+  dsimp only
+  obtain ⟨rs, hrs, hne⟩ := replaceSection_total T ls.opText ls.opDefault true sec.out true true rot.inl
+    (hw.langs_ok ls (List.mem_of_find?_eq_some hs)).2.2.2 hri
+  rw [hrs]
+  dsimp only
+  have hro := replaceSection_OL T _ _ _ _ _ _ _ _ rs hout hrs
+  refine Post_bind _ _ _ _ _ (Post_modify _ st1 (fun _ s => Good T nroot st s)
+    (Good_trans T nroot _ _ _ hgood (Good_setRot T nroot st1 _ hgood.1 ⟨hne, hrd, hrc⟩))) ?_
+  intro _ st2 hgood2
+  apply Post_pure
+  have ho1 : OL T st.latex.length (mkAction tok.pos :: rs.out) := OL_cons T _ _ _ (OTok_mkAction T _ _ hp) hro
+  exact ⟨hgood2, OL_snoc T _ _ _ ho1 (OTok_mkAction T _ _ (lastPos_lt _ _ _ (OL_pos T _ _ ho1) hp)), hbuf⟩
 /-! ### `displayLoop` -/
 
 /-- recursive call of `displayLoop` from a later state of the same frame -/
@@ -405,45 +556,42 @@ theorem dispLoop_step (hw : T.WFInv) (nroot fuel : Nat) (IH : AllSpecs T nroot f
   refine Post_bind _ _ _ _ _ (Post_get st1 (fun a s => st1 = a ∧ st1 = s) ⟨rfl, rfl⟩) ?_
   rintro _ _ ⟨rfl, rfl⟩
   dsimp only
-  cases hr : rotOf st1 (curSettings st1) with
-  | none => exact Post_crash _ _ _
-  | some rot =>
-    cases hs : settingsOf T (curSettings st1) with
-    | none => exact Post_crash _ _ _
-    | some ls =>
-      dsimp only
-      cases hrs : replaceSection T ls.opText ls.opDefault false (detectMathParts sec.out []) first next rot.disp with
-      | none => exact Post_crash _ _ _
-      | some rs =>
-        dsimp only
-        have hro := replaceSection_OL T _ _ _ _ _ _ _ _ rs hsout hrs
-        refine Post_bind _ _ _ _ _ (Post_modify _ st1 (fun _ s => Good T nroot st s)
-          (Good_trans T nroot _ _ _ hgood (Good_setRot T nroot st1 _ hgood.1))) ?_
-        intro _ st2 hgood2
-        have ho1 : OL T st.latex.length (out ++ rs.out) := (OL_append T _ _ _).mpr ⟨hout, hro⟩
-        have hlp := lastPos_lt _ _ _ (OL_pos T _ _ ho1) hstart
-        have hfin : Post ((pure (out ++ rs.out, sec.buf) : M _) st2) (fun r st' =>
-            Good T nroot st st' ∧ OL T st.latex.length r.1 ∧ BL T st.latex.length r.2) :=
-          Post_pure _ _ _ ⟨hgood2, ho1, hbuf⟩
-        cases hte : sec.term with
-        | none => exact hfin
-        | some e =>
-          dsimp only
-          refine Post_ite _ _ _ _ _ (fun _ => ?_) (fun _ => ?_)
-          · exact dispLoop_rec T nroot fuel IH st st2 hgood2 _ _ envName _ _ _ hbuf
-              (nextStart_lt T _ _ _ hbuf hstart)
-              (OL_snoc T _ _ _ ho1 (OTok_mkFix T _ _ .space _ hlp (by simp))) henv
-          refine Post_ite _ _ _ _ _ (fun _ => ?_) (fun _ => ?_)
-          · have hl2 : st2.latex = st.latex := hgood2.2.1
-            have hpn := parseNewlineOption_spec T hw sec.buf false st2 (by rw [hl2]; exact hbuf)
-            refine Post_bind _ _ _ _ _ hpn ?_
-            intro b st3 ⟨hb3, hst3⟩
-            rw [hl2] at hb3
-            exact dispLoop_rec T nroot fuel IH st st3
-              (Good_trans T nroot _ _ _ hgood2 (Good_diags T nroot st2 st3 hgood2.1 hst3)) _ _ envName _ _ _ hb3
-              (nextStart_lt T _ _ _ hb3 hstart)
-              (OL_snoc T _ _ _ ho1 (OTok_mkFix T _ _ .space _ hlp (by simp))) henv
-          · exact hfin
+  obtain ⟨ls, hs⟩ := ncMath_settings T hw nroot st1 hgood.1.toG0
+  obtain ⟨rot, hr, _, hri, hrd, hrc⟩ := ncMath_rot T nroot st1 hgood.1.toG0 _ ls hs
+  rw [hr, hs]
+  dsimp only
+  obtain ⟨rs, hrs, hne⟩ := replaceSection_total T ls.opText ls.opDefault false sec.out first next rot.disp
+    (hw.langs_ok ls (List.mem_of_find?_eq_some hs)).2.2.2 hrd
+  rw [hrs]
+  dsimp only
+  have hro := replaceSection_OL T _ _ _ _ _ _ _ _ rs hsout hrs
+  refine Post_bind _ _ _ _ _ (Post_modify _ st1 (fun _ s => Good T nroot st s)
+    (Good_trans T nroot _ _ _ hgood (Good_setRot T nroot st1 _ hgood.1 ⟨hri, hne, hrc⟩))) ?_
+  intro _ st2 hgood2
+  have ho1 : OL T st.latex.length (out ++ rs.out) := (OL_append T _ _ _).mpr ⟨hout, hro⟩
+  have hlp := lastPos_lt _ _ _ (OL_pos T _ _ ho1) hstart
+  have hfin : Post ((pure (out ++ rs.out, sec.buf) : M _) st2) (fun r st' =>
+      Good T nroot st st' ∧ OL T st.latex.length r.1 ∧ BL T st.latex.length r.2) :=
+    Post_pure _ _ _ ⟨hgood2, ho1, hbuf⟩
+  cases hte : sec.term with
+  | none => exact hfin
+  | some e =>
+    dsimp only
+    refine Post_ite _ _ _ _ _ (fun _ => ?_) (fun _ => ?_)
+    · exact dispLoop_rec T nroot fuel IH st st2 hgood2 _ _ envName _ _ _ hbuf
+        (nextStart_lt T _ _ _ hbuf hstart)
+        (OL_snoc T _ _ _ ho1 (OTok_mkFix T _ _ .space _ hlp (by simp))) henv
+    refine Post_ite _ _ _ _ _ (fun _ => ?_) (fun _ => ?_)
+    · have hl2 : st2.latex = st.latex := hgood2.2.1
+      have hpn := parseNewlineOption_spec T hw sec.buf false st2 (by rw [hl2]; exact hbuf)
+      refine Post_bind _ _ _ _ _ hpn ?_
+      intro b st3 ⟨hb3, hst3⟩
+      rw [hl2] at hb3
+      exact dispLoop_rec T nroot fuel IH st st3
+        (Good_trans T nroot _ _ _ hgood2 (Good_diags T nroot st2 st3 hgood2.1 hst3)) _ _ envName _ _ _ hb3
+        (nextStart_lt T _ _ _ hb3 hstart)
+        (OL_snoc T _ _ _ ho1 (OTok_mkFix T _ _ .space _ hlp (by simp))) henv
+    · exact hfin
 
 /-! ### `expandDisplayMath` -/
 
@@ -475,17 +623,22 @@ theorem display_step (hw : T.WFInv) (nroot fuel : Nat) (IH : AllSpecs T nroot fu
   · refine Post_bind _ _ _ _ _ (Post_get st1 (fun a s => st1 = a ∧ st1 = s) ⟨rfl, rfl⟩) ?_
     rintro _ _ ⟨rfl, rfl⟩
     refine Post_ite _ _ _ _ _ (fun _ => ?_) (fun _ => ?_)
-    · cases (rotOf st1 (curSettings st1)).bind (fun x => x.disp.head?) with
-      | none => exact Post_crash _ _ _
-      | some d0 =>
-        dsimp only
-        apply Post_pure
-        refine ⟨hgood, ?_, hr2⟩
-        refine OL_snoc T _ _ _ ((OL_append T _ _ _).mpr ⟨?_, ?_⟩) hact
-        · exact OL_cons T _ _ _ hact (OL_cons T _ _ _ hsp2
-            (OL_cons T _ _ _ (OTok_mkFix T _ _ .text _ hp (by simp)) (OL_nil T _)))
-        · repeat' split
-          all_goals first | exact OL_cons T _ _ _ (OTok_mkFix T _ _ .text _ hp (by simp)) (OL_nil T _) | exact OL_nil T _
+    · obtain ⟨d0, hd0⟩ : ∃ d0, (rotOf st1 (curSettings st1)).bind (fun x => x.disp.head?) = some d0 := by
+        obtain ⟨ls, hs⟩ := ncMath_settings T hw nroot st1 hgood.1.toG0
+        obtain ⟨rot, hr, _, _, hrd, _⟩ := ncMath_rot T nroot st1 hgood.1.toG0 _ ls hs
+        rw [hr]
+        cases hdd : rot.disp with
+        | nil => exact absurd hdd hrd
+        | cons a t => exact ⟨a, by simp [hdd]⟩
+      rw [hd0]
+      dsimp only
+      apply Post_pure
+      refine ⟨hgood, ?_, hr2⟩
+      refine OL_snoc T _ _ _ ((OL_append T _ _ _).mpr ⟨?_, ?_⟩) hact
+      · exact OL_cons T _ _ _ hact (OL_cons T _ _ _ hsp2
+          (OL_cons T _ _ _ (OTok_mkFix T _ _ .text _ hp (by simp)) (OL_nil T _)))
+      · repeat' split
+        all_goals first | exact OL_cons T _ _ _ (OTok_mkFix T _ _ .text _ hp (by simp)) (OL_nil T _) | exact OL_nil T _
     · apply Post_pure
       exact ⟨hgood, OL_snoc T _ _ _ hr1 (OTok_mkAction T _ _ hlp), hr2⟩
 
